@@ -46,7 +46,17 @@ def judge_vector_scalars(c, svals):
     out = []
     n = c.get("n", 10001)
     for row in svals:
-        dot, l1, l2, linf, rdot, rl1, rl2, rinf, sabs = row
+        dot, l1, l2, linf, rdot, rl1, rl2, rinf, sabs = row[:9]
+        if len(row) >= 18:
+            names = ("assign", "add", "subtract", "linear_combination", "multiply", "copy-constructor", "copy-assignment",
+                     "add-with-threshold", "equals")
+            for name, dev in zip(names, row[9:18]):
+                tol = 4 * EPS if name == "linear_combination" else 0.0
+                if not dev <= tol:
+                    out.append(("kernel:%s" % name, "%s deviates from its element-wise definition by %.3g (allowed %.3g; n=%d, T=%d)" %
+                                (name, dev, tol, n, c["T"])))
+        else:
+            out.append(("kernel:missing", "the probe did not report the element-wise kernel deviations"))
         for name, got, ref, scale in (("dot_product", dot, rdot, sabs), ("l1_norm", l1, rl1, rl1), ("l2_norm_squared", l2, rl2, rl2)):
             if not abs(got - ref) <= n * EPS * scale:
                 out.append(("kernel:%s" % name, "%s = %.17g differs from its definition %.17g by more than n*eps*sum|terms| "
@@ -64,6 +74,7 @@ def main(tier):
     res, vecs = mc_lib.run(engine, pairs)
     fres, fvecs = mc_lib.run(free, [(i, l + " reps=3") for i, l in pairs if "op=threadtable" not in l], jobs=max(2, common.NCPU // 4))
     tot = dict(schedules=0, epochs=0, blocks=0)
+    sched_dep_access = []
     distinct_scalar_sets = 0
     worst_T = {}
     by_group = {}
@@ -84,8 +95,9 @@ def main(tier):
             rep.violation("schedule-dependent-output:%s" % c["op"], "the output vector depends on the order in which the threads ran "
                           "(%s distinct outputs over %s schedules)  [case %s]" % (r["distinctout"], r["schedules"], info), {"case": c["line"]})
         if int(r["sigmismatch"]) != 0:
-            rep.violation("schedule-dependent-accesses:%s" % c["op"], "the per-epoch access sets depend on the schedule (%s of %s schedules)"
-                          "  [case %s]" % (r["sigmismatch"], r["schedules"], info), {"case": c["line"]})
+            # not a violation: with a critical section which member stores may legitimately depend on the arrival order while the
+            # result does not (first version reported this and alarmed on a correct 'omp critical' maximum); recorded as coverage
+            sched_dep_access.append(c["id"])
         if c["op"] == "threadtable":
             y = vecs[c["id"]]["y"].ravel()
             rows, cur = [], []
@@ -156,6 +168,7 @@ def main(tier):
     cov = {
         "states": tot["epochs"], "transitions": tot["blocks"], "traces_validated_against_impl": compared,
         "schedules": tot["schedules"], "evaluations": len(cs), "distinct_nontrivial": len(by_group),
+        "cases_with_schedule_dependent_access_sets": sched_dep_access[:20],
         "engine_vs_libgomp_bitwise_comparisons": compared, "distinct_reduction_results_seen": distinct_scalar_sets,
         "worst_relative_difference_across_thread_counts": worst_T, "tolerances_across_thread_counts": TOL_T,
         "team_sizes": [1] + tier_Ts(tier),
